@@ -7,14 +7,26 @@ import (
 	"unicode/utf16"
 )
 
+// MultiLocalisedUnicode keeps, for each record, the UTF-16BE bytes of its string
+// as stored in the tag. Strings are decoded only when asked for: records may
+// share or overlap their string data, so decoding every record up front costs
+// time and memory proportional to records x string size.
 type MultiLocalisedUnicode struct {
-	entriesByLanguageCountry map[[2]byte]map[[2]byte]string
+	entriesByLanguageCountry map[[2]byte]map[[2]byte][]byte
+}
+
+func decodeUTF16BE(b []byte) string {
+	u := make([]uint16, len(b)/2)
+	for j := range u {
+		u[j] = uint16(b[2*j])<<8 | uint16(b[2*j+1])
+	}
+	return string(utf16.Decode(u))
 }
 
 func (mluc *MultiLocalisedUnicode) getAnyString() string {
 	for _, country := range mluc.entriesByLanguageCountry {
 		for _, s := range country {
-			return s
+			return decodeUTF16BE(s)
 		}
 	}
 	return ""
@@ -26,20 +38,20 @@ func (mluc *MultiLocalisedUnicode) getString(language [2]byte, country [2]byte) 
 		return ""
 	}
 
-	return countries[country]
+	return decodeUTF16BE(countries[country])
 }
 
 func (mluc *MultiLocalisedUnicode) getStringForLanguage(language [2]byte) (string, bool) {
 	for _, s := range mluc.entriesByLanguageCountry[language] {
-		return s, true
+		return decodeUTF16BE(s), true
 	}
 	return "", false
 }
 
-func (mluc *MultiLocalisedUnicode) setString(language [2]byte, country [2]byte, text string) {
+func (mluc *MultiLocalisedUnicode) setString(language [2]byte, country [2]byte, text []byte) {
 	countries, ok := mluc.entriesByLanguageCountry[language]
 	if !ok {
-		countries = map[[2]byte]string{
+		countries = map[[2]byte][]byte{
 			country: text,
 		}
 		mluc.entriesByLanguageCountry[language] = countries
@@ -51,7 +63,7 @@ func (mluc *MultiLocalisedUnicode) setString(language [2]byte, country [2]byte, 
 
 func parseMultiLocalisedUnicode(data []byte) (MultiLocalisedUnicode, error) {
 	result := MultiLocalisedUnicode{
-		entriesByLanguageCountry: make(map[[2]byte]map[[2]byte]string),
+		entriesByLanguageCountry: make(map[[2]byte]map[[2]byte][]byte),
 	}
 
 	reader := bytes.NewReader(data)
@@ -116,12 +128,7 @@ func parseMultiLocalisedUnicode(data []byte) (MultiLocalisedUnicode, error) {
 
 		// The string is stored at the offset declared by the record (relative
 		// to the start of the tag), not necessarily right after the record.
-		recordStringBytes := data[stringOffset : uint64(stringOffset)+uint64(stringLength)]
-		recordStringUTF16 := make([]uint16, len(recordStringBytes)/2)
-		for j := 0; j < len(recordStringUTF16); j++ {
-			recordStringUTF16[j] = uint16(recordStringBytes[2*j])<<8 | uint16(recordStringBytes[2*j+1])
-		}
-		result.setString(language, country, string(utf16.Decode(recordStringUTF16)))
+		result.setString(language, country, data[stringOffset:uint64(stringOffset)+uint64(stringLength)])
 
 		// Skip to next record
 		for j := uint32(12); j < recordSize; j++ {
